@@ -5,9 +5,9 @@ cd "$(dirname "$0")/.."
 B=$1; shift
 for S in "$@"; do
   for P in C20 C19 C18 C17 C01 C02 C12 C09 C15 C04; do
-    VERIF_SCRATCH=/tmp/simcheck-scratch-soak ./simcheck $P --tier thorough --seed $S --budget $B --no-evidence > /tmp/soak_$P_$S.log 2>&1
+    VERIF_SCRATCH=/tmp/simcheck-scratch-soak ./simcheck $P --tier thorough --seed $S --budget $B --no-evidence > /tmp/soak_${P}_${S}.log 2>&1
     rc=$?
-    echo "soak seed=$S $P rc=$rc $(tail -1 /tmp/soak_$P_$S.log | cut -c1-200)"
-    if [ $rc -ne 0 ]; then grep -A1 "^VIOLATION\|HARNESS" /tmp/soak_$P_$S.log | head -12; fi
+    echo "soak seed=$S $P rc=$rc $(tail -1 /tmp/soak_${P}_${S}.log | cut -c1-200)"
+    if [ $rc -ne 0 ]; then grep -A1 "^VIOLATION\|HARNESS" /tmp/soak_${P}_${S}.log | head -12; fi
   done
 done
